@@ -255,7 +255,7 @@ def query_sets(xs, dtype):
     return [(nm, _round(q, dtype)) for nm, q in sets], thirds
 
 
-def grad_query_sets(xs, dtype):
+def grad_query_sets(xs, dtype, method=None):
     n = len(xs)
     a, b = xs[0], xs[-1]
     L = b - a
@@ -264,8 +264,14 @@ def grad_query_sets(xs, dtype):
     outside = np.array([a - 0.3 * L, a - 0.9 * L, a - 2.3 * L, b + 0.4 * L, b + 0.8 * L, b + 2.6 * L])
     big = np.concatenate([inner, outside])
     big = big[ic.fixed_perm(len(big))]
-    return [("gL", _round(big, dtype)), ("gS", _round(np.array([inner[1], a - 0.3 * L, b + 0.4 * L]), dtype))], \
-        [("gxA", _round(inner, dtype)), ("gxB", _round(inner[:n], dtype))]
+    gsets = [("gL", _round(big, dtype)), ("gS", _round(np.array([inner[1], a - 0.3 * L, b + 0.4 * L]), dtype))]
+    if method == "cspline" and n >= 3:
+        # the cubic spline is C^2: its derivative at an interior sample position is defined, whichever piece is used
+        # (more queries than samples, and fewer)
+        knots = np.asarray(xs[1:-1], dtype=np.float64)
+        gsets.append(("gK", np.concatenate([_round(inner, dtype), knots])))
+        gsets.append(("gKs", knots[: max(1, n - 2)].copy()))
+    return gsets, [("gxA", _round(inner, dtype)), ("gxB", _round(inner[:n], dtype))]
 
 
 def _round(q, dtype):
@@ -598,7 +604,7 @@ def _gradients(Interp1D, cfg, xs, x_t, perm, perm_t, basis, coef, mode, free, kw
     cslots = np.stack([np.roll(coef, k) * (1.0 + 0.25 * k) for k in range(B)], axis=0)       # (B, nb)
     Ysorted = torch.tensor(cslots @ basis.T, dtype=torch.float64).to(dtype)                  # (B, n)
     cs_exact = cslots
-    gsets, gxsets = grad_query_sets(xs, dtype)
+    gsets, gxsets = grad_query_sets(xs, dtype, method)
     # 3 knots + not-a-knot: which member of the family is selected as the knots move is the implementation's choice,
     # so the derivative with respect to x has no reference there
     todo = [(nm, q, "yq") for nm, q in gsets] + ([(nm, q, "x") for nm, q in gxsets] if xgrad and free is None else [])
